@@ -515,7 +515,7 @@ namespace
       // ---- (d) matrix-free prolongation = matrix, (e) LAFEM::Transfer = the matrices
       {
         VectorType vc(nc), vf(nf), vf2(nf), vc2(nc), vc3(nc), dual(nf);
-        std::vector<double> xc(size_t(nc)), xd(size_t(nf));
+        std::vector<double> xc((size_t(nc)), 0.0), xd((size_t(nf)), 0.0);
         for(Index j = 0; j < nc; ++j) { xc[size_t(j)] = double(int((j * 5u + 3u) % 11u) - 5) / 4.0; vc(j, xc[size_t(j)]); }
         for(Index i = 0; i < nf; ++i) { xd[size_t(i)] = double(int((i * 7u + 1u) % 13u) - 6) / 8.0; dual(i, xd[size_t(i)]); }
         std::vector<double> y, ya;
@@ -535,7 +535,7 @@ namespace
         std::vector<double> z, za;
         P.apply_t(z, za, xd);
         for(Index j = 0; j < nc; ++j) wr = std::max(wr, std::fabs(vc2(j) - z[size_t(j)]) / (za[size_t(j)] + 1e-300));
-        std::vector<double> xf(size_t(nf)); for(Index i = 0; i < nf; ++i) xf[size_t(i)] = vf2(i);
+        std::vector<double> xf((size_t(nf)), 0.0); for(Index i = 0; i < nf; ++i) xf[size_t(i)] = vf2(i);
         T.apply(z, za, xf);
         for(Index j = 0; j < nc; ++j) wt = std::max(wt, std::fabs(vc3(j) - z[size_t(j)]) / (za[size_t(j)] + 1e-300));
         c.check(wp <= tol, "LAFEM::Transfer::prol differs from P*v; " + key, [&]{ char b[100]; snprintf(b, sizeof b, "relative difference %.3e", wp); return std::string(b); });
